@@ -45,6 +45,11 @@ type langEvent struct {
 	Translated []langKey `json:"translated"`
 	Tags       []langTag `json:"tags"`
 	Why        string    `json:"why"` // text of the error, if any
+	// engine.Config.Language of the application ("" = none), the language observed after the PREVIOUS request of the session
+	// (copied, not computed), and the codes the language-switching function returned during this request, in order
+	CfgLang string   `json:"cfglang"`
+	Prev    string   `json:"prev"`
+	Calls   []string `json:"calls"`
 }
 
 var tagRe = regexp.MustCompile(`\[(T|L|S):([a-z0-9_]+):([a-z]+)\]`)
@@ -64,12 +69,16 @@ func cmdLangRun(args []string) error {
 	ctx := context.Background()
 	langs := []string{"nor", "fra", "swa"}
 	nodes := map[string][]Instr{
-		"root":   {{Op: "MOUT", A: "item", B: "1"}, {Op: "MOUT", A: "other", B: "2"}, {Op: "HALT"}, {Op: "INCMP", A: "sw", B: "1"}, {Op: "INCMP", A: "sub", B: "2"}},
+		"root":   {{Op: "MOUT", A: "item", B: "1"}, {Op: "MOUT", A: "other", B: "2"}, {Op: "HALT"}, {Op: "INCMP", A: "sw", B: "1"}, {Op: "INCMP", A: "sub", B: "2"}, {Op: "INCMP", A: "quit", B: "3"}},
 		// (sub is only entered from root and only left upwards: the static symbol is loaded afresh, in the language the session
 		// has at that request, every time the node is shown - a symbol still visible from an earlier visit would rightly be kept)
 		"sw":     {{Op: "LOAD", A: "setlang", N: 0}, {Op: "MOUT", A: "back", B: "0"}, {Op: "HALT"}, {Op: "INCMP", A: "_", B: "0"}, {Op: "INCMP", A: "_", B: "2"}},
 		"sub":    {{Op: "LOAD", A: "txt", N: 0}, {Op: "MAP", A: "txt"}, {Op: "MOUT", A: "back", B: "0"}, {Op: "HALT"}, {Op: "INCMP", A: "_", B: "0"}, {Op: "INCMP", A: "_", B: "1"}},
 		"_catch": {{Op: "MOUT", A: "back", B: "0"}, {Op: "HALT"}, {Op: "INCMP", A: "_", B: "*"}},
+		// the program runs to its end here: the page is shown, the session starts over with the next request - in the language
+		// it had
+		// (HALT as the last instruction is the graceful end: Exec returns false, Flush shows the page and restarts the state)
+		"quit": {{Op: "MOUT", A: "item", B: "1"}, {Op: "HALT"}},
 	}
 	nreqs := 0
 	for ai := 0; ai < napps; ai++ {
@@ -102,7 +111,7 @@ func cmdLangRun(args []string) error {
 			store.SetPrefix(db.DATATYPE_BIN)
 			store.Put(ctx, []byte(n), b)
 		}
-		for _, n := range []string{"root", "sw", "_catch"} {
+		for _, n := range []string{"root", "sw", "_catch", "quit"} {
 			put(db.DATATYPE_TEMPLATE, n, "T", n)
 		}
 		// the template of sub shows the static symbol
@@ -127,18 +136,30 @@ func cmdLangRun(args []string) error {
 		for si := 0; si < nsess; si++ {
 			mode := []string{"L", "P", "S"}[si%3]
 			sid := fmt.Sprintf("a%d.s%d", ai, si)
+			// every other application has a configured default language (the sessions of one application follow each other:
+			// what one session selects must not reach the next one)
+			cfgLang := ""
+			if ai%2 == 1 {
+				cfgLang = []string{"nor", "swa"}[(ai/2)%2]
+			}
+			var calls []string
 			codes := []string{"nor", "fra", "xx", "swa", "en", "no"}
 			ncall := rng.Intn(6)
 			setlang := func(ctx context.Context, sym string, input []byte) (resource.Result, error) {
 				c := codes[ncall%len(codes)]
 				ncall++
+				calls = append(calls, c)
 				return resource.Result{Content: c, FlagSet: []uint32{state.FLAG_LANG}}, nil
 			}
 			stateStore := newMemStore()
 			var en *engine.DefaultEngine
 			var st *state.State
+			prevLang := ""
 			in := ""
 			n := 1 + rng.Intn(maxreq)
+			if si%4 == 3 && n < 6 {
+				n = 6
+			}
 			for j := 0; j < n; j++ {
 				var pe *persist.Persister
 				if mode != "L" || en == nil {
@@ -147,18 +168,24 @@ func cmdLangRun(args []string) error {
 						rs = sharedRs
 					}
 					rs.AddLocalFunc("setlang", setlang)
-					en = engine.NewEngine(engine.Config{Root: "root", FlagCount: 2, SessionId: sid}, rs)
+					en = engine.NewEngine(engine.Config{Root: "root", FlagCount: 2, SessionId: sid, Language: cfgLang}, rs)
 					if mode != "L" {
 						pe = persist.NewPersister(stateStore)
 						en = en.WithPersister(pe)
 					} else {
-						st = state.NewState(2)
+						// (after the end of the program the application makes a new engine object around the state it keeps)
+						if st == nil {
+							st = state.NewState(2)
+						}
 						en = en.WithState(st)
 					}
 				}
-				ev := langEvent{Ev: "langout", Sid: sid, Req: j, Mode: mode, Input: enc(in), Translated: translated, Tags: []langTag{}}
+				calls = []string{}
+				ev := langEvent{Ev: "langout", Sid: sid, Req: j, Mode: mode, Input: enc(in), Translated: translated, Tags: []langTag{}, CfgLang: cfgLang, Prev: prevLang}
 				if st != nil && st.Language != nil {
 					ev.LangBefore = st.Language.Code
+				} else if j == 0 {
+					ev.LangBefore = cfgLang
 				}
 				vm.VerifHook = nil
 				func() {
@@ -193,12 +220,22 @@ func cmdLangRun(args []string) error {
 				if st != nil && st.Language != nil {
 					ev.Lang = st.Language.Code
 				}
+				ev.Calls = calls
+				prevLang = ev.Lang
 				out.put(ev)
 				nreqs++
-				if !ev.Cont || ev.Err {
+				if ev.Err {
 					break
 				}
-				in = []string{"1", "2", "0", "1", "2", "9", ""}[rng.Intn(7)]
+				in = []string{"1", "2", "0", "1", "2", "9", "", "3", "3", "0"}[rng.Intn(10)]
+				if !ev.Cont {
+					in = "" // the session has ended: the client dials in again
+					en = nil
+				}
+				// every fourth session begins with: select a language, go back, run the program to its end, dial in again
+				if script := []string{"1", "0", "3", "", "2"}; si%4 == 3 && j < len(script) {
+					in = script[j]
+				}
 			}
 		}
 	}
